@@ -30,6 +30,7 @@ import (
 	"encoding/json"
 	"flag"
 	"fmt"
+	"math"
 	"math/big"
 	"math/rand"
 	"os"
@@ -40,11 +41,13 @@ import (
 
 	"github.com/vechain/thor/v2/block"
 	"github.com/vechain/thor/v2/consensus"
+	"github.com/vechain/thor/v2/consensus/upgrade/galactica"
 	"github.com/vechain/thor/v2/packer"
 	"github.com/vechain/thor/v2/runtime"
 	"github.com/vechain/thor/v2/thor"
 	"github.com/vechain/thor/v2/trie"
 	"github.com/vechain/thor/v2/tx"
+	"github.com/vechain/thor/v2/txpool"
 	"github.com/vechain/thor/v2/vrf"
 	"github.com/vechain/thor/v2/xenv"
 
@@ -53,23 +56,27 @@ import (
 )
 
 type runStat struct {
-	Mode        string         `json:"mode"`
-	Seed        int64          `json:"seed"`
-	Events      int            `json:"events"`
-	Blocks      int            `json:"blocks"`
-	MaxHeight   uint32         `json:"maxHeight"`
-	Candidates  int            `json:"candidates"`
-	Accepted    int            `json:"accepted"`
-	Rejected    int            `json:"rejected"`
-	Classes     map[string]int `json:"classes"`
-	Reasons     map[string]int `json:"reasons"`
-	Adopts      int            `json:"adopts"`
-	AdoptRefuse int            `json:"adoptRefused"`
-	DupRecent   int            `json:"dupChecksRecentPath"`  // candidates re-including a tx, parent - ref < 100
-	DupIndexed  int            `json:"dupChecksIndexedPath"` // ... parent - ref >= 100
-	Lookups     int            `json:"lookups"`
-	LookIndexed int            `json:"lookupsIndexedPath"`
-	Errors      []string       `json:"errors,omitempty"`
+	Mode         string         `json:"mode"`
+	Seed         int64          `json:"seed"`
+	Events       int            `json:"events"`
+	Blocks       int            `json:"blocks"`
+	MaxHeight    uint32         `json:"maxHeight"`
+	Candidates   int            `json:"candidates"`
+	Accepted     int            `json:"accepted"`
+	Rejected     int            `json:"rejected"`
+	Classes      map[string]int `json:"classes"`
+	Reasons      map[string]int `json:"reasons"`
+	Adopts       int            `json:"adopts"`
+	AdoptClasses map[string]int `json:"adoptClasses"`
+	PoolEvals    int            `json:"poolEvaluations"`
+	WideWindows  int            `json:"windowsBeyond32Bits"` // candidates with ref + exp >= 2^32
+	Restarts     int            `json:"restarts"`
+	AdoptRefuse  int            `json:"adoptRefused"`
+	DupRecent    int            `json:"dupChecksRecentPath"`  // candidates re-including a tx, parent - ref < 100
+	DupIndexed   int            `json:"dupChecksIndexedPath"` // ... parent - ref >= 100
+	Lookups      int            `json:"lookups"`
+	LookIndexed  int            `json:"lookupsIndexedPath"`
+	Errors       []string       `json:"errors,omitempty"`
 }
 
 type txr struct {
@@ -80,6 +87,8 @@ type txr struct {
 	dep    *txr
 	tagok  bool
 	revert bool
+	fund   bool // sends a few wei to the account O
+	onFund bool // O transfers more than its genesis balance to itself: succeeds only after a fund tx on the same chain
 }
 
 type blk struct {
@@ -136,9 +145,39 @@ func onChain(head *blk, t *txr) (bool, bool) {
 
 var huge = new(big.Int).Mul(sim.BigBalance, big.NewInt(4))
 
+const nOrigins = 5 // extra accounts used as ordinary origins; the next one is O
+
+func sat(x uint32) uint32 { return min(x, 1<<31-1) } // TLC integers are 32-bit signed (see InWindow in ChainIndex.tla)
+
+// revertsOn: will t be included as reverted in a block on parent after the txs prior? Ordinary txs revert by
+// construction or never; an onFund tx reverts unless a fund tx precedes it on that very chain.
+func (t *txr) revertsOn(parent *blk, prior []*txr) bool {
+	if !t.onFund {
+		return t.revert
+	}
+	for _, p := range prior {
+		if p.fund {
+			return false
+		}
+	}
+	for x := parent; x != nil; x = x.parent {
+		for _, y := range x.txs {
+			if y.fund {
+				return false
+			}
+		}
+	}
+	return true
+}
+
 // newTx builds a signed legacy transfer. revert: the transfer exceeds the origin's balance, so the clause fails and the
 // tx is included as reverted whatever the state is.
 func (r *run) newTx(ref, exp uint32, dep *txr, tagok, revert bool) *txr {
+	return r.newTxKind(ref, exp, dep, tagok, revert, "")
+}
+
+// newTxKind: kind "fund" = an ordinary origin sends 10 wei to O; "onfund" = O sends its genesis balance + 5 wei to itself.
+func (r *run) newTxKind(ref, exp uint32, dep *txr, tagok, revert bool, kind string) *txr {
 	r.nonce++
 	tag := r.node.Repo.ChainTag()
 	if !tagok {
@@ -157,14 +196,28 @@ func (r *run) newTx(ref, exp uint32, dep *txr, tagok, revert bool) *txr {
 		b.DependsOn(&id)
 		depName = dep.name
 	}
-	origin := r.net.Opt.Validators + int(r.nonce)%r.net.Opt.ExtraAccts
+	origin := r.net.Opt.Validators + int(r.nonce)%nOrigins
+	oAcc := r.net.Devs[r.net.Opt.Validators+nOrigins]
+	switch kind {
+	case "fund":
+		b = tx.NewBuilder(tx.TypeLegacy).ChainTag(tag).BlockRef(tx.NewBlockRef(ref)).Expiration(exp).Gas(60000).
+			Nonce(r.nonce).Clause(tx.NewClause(&oAcc.Address).WithValue(big.NewInt(10)))
+	case "onfund":
+		b = tx.NewBuilder(tx.TypeLegacy).ChainTag(tag).BlockRef(tx.NewBlockRef(ref)).Expiration(exp).Gas(60000).
+			Nonce(r.nonce).Clause(tx.NewClause(&oAcc.Address).WithValue(new(big.Int).Add(sim.BigBalance, big.NewInt(5))))
+		origin = r.net.Opt.Validators + nOrigins
+	}
+	if kind != "" && dep != nil {
+		id := dep.tx.ID()
+		b.DependsOn(&id)
+	}
 	t := tx.MustSign(b.Build(), r.net.Devs[origin].PrivateKey)
 	id := t.ID()
-	x := &txr{tx: t, ref: ref, exp: exp, dep: dep, tagok: tagok, revert: revert}
+	x := &txr{tx: t, ref: ref, exp: exp, dep: dep, tagok: tagok, revert: revert, fund: kind == "fund", onFund: kind == "onfund"}
 	x.name = r.tids.Name(id[:])
 	r.txs = append(r.txs, x)
-	r.emit(trace.Ev{"e": "Tx", "t": x.name, "tagok": tagok, "ref": t.BlockRef().Number(), "exp": t.Expiration(), "dep": depName,
-		"pfx": r.pids.Name(id[:8])})
+	r.emit(trace.Ev{"e": "Tx", "t": x.name, "tagok": tagok, "ref": sat(t.BlockRef().Number()), "exp": sat(t.Expiration()), "dep": depName,
+		"pfx": r.pids.Name(id[:8]), "ref64": uint64(t.BlockRef().Number()), "exp64": uint64(t.Expiration()), "kind": kind})
 	return x
 }
 
@@ -183,8 +236,8 @@ func (r *run) noteAdd(b *block.Block, parent *blk, txs []*txr) *blk {
 		revs = append(revs, rc.Reverted)
 		sers = append(sers, rc.GasUsed)
 		tn = append(tn, txs[i].name)
-		if rc.Reverted != txs[i].revert {
-			must(fmt.Errorf("tx %s: reverted=%v, planned %v", txs[i].name, rc.Reverted, txs[i].revert))
+		if want := txs[i].revertsOn(parent, txs[:i]); rc.Reverted != want {
+			must(fmt.Errorf("tx %s: reverted=%v, planned %v", txs[i].name, rc.Reverted, want))
 		}
 	}
 	n.revs = revs
@@ -308,18 +361,59 @@ func (r *run) candidate(parent *blk, class string, txs []*txr) *blk {
 	if flow.When() != e.Header().Timestamp() {
 		must(fmt.Errorf("packer scheduled another slot"))
 	}
+	// 0. the pool's admission rule (TxObject.Evaluate) for every candidate tx against the parent as head
+	pst := g.Stater.NewState(ps.Root())
+	for i, t := range txs {
+		if !t.tagok || (i > 0 && txs[i-1] == t) {
+			continue // the chain tag is checked elsewhere in the pool
+		}
+		obj, err := txpool.ResolveTx(t.tx, false)
+		must(err)
+		exec, _, err := obj.Evaluate(g.Repo.NewChain(parent.id), pst, ps.Header, r.net.FC, galactica.CalcBaseFee(ps.Header, r.net.FC), false)
+		cls := "waiting"
+		if err != nil {
+			cls = "rejected"
+		} else if exec {
+			cls = "executable"
+		}
+		ev := trace.Ev{"e": "Pool", "h": parent.name, "t": t.name, "cls": cls}
+		if err != nil {
+			ev["err"] = err.Error()
+		}
+		r.emit(ev)
+		r.st.PoolEvals++
+	}
 	prior, priorrevs := []string{}, []bool{}
+	var adopted []*txr
 	for _, t := range txs {
 		err := flow.Adopt(t.tx)
 		r.st.Adopts++
+		cls := "ok"
+		switch {
+		case err == nil:
+		case packer.IsBadTx(err):
+			cls = "bad"
+		case packer.IsTxNotAdoptableNow(err):
+			cls = "later"
+		case packer.IsGasLimitReached(err):
+			cls = "gaslimit"
+		case err.Error() == "known tx":
+			cls = "known"
+		case err.Error() == "tx not adoptable forever":
+			cls = "never"
+		default:
+			cls = "other: " + err.Error()
+		}
 		ev := trace.Ev{"e": "Adopt", "p": parent.name, "prior": append([]string{}, prior...), "priorrevs": append([]bool{}, priorrevs...),
-			"t": t.name, "ok": err == nil}
+			"t": t.name, "ok": err == nil, "cls": cls}
 		if err != nil {
 			ev["err"] = err.Error()
 			r.st.AdoptRefuse++
+			r.st.AdoptClasses[cls]++
 		} else {
 			prior = append(prior, t.name)
-			priorrevs = append(priorrevs, t.revert)
+			priorrevs = append(priorrevs, t.revertsOn(parent, adopted))
+			adopted = append(adopted, t)
 		}
 		r.emit(ev)
 	}
@@ -329,8 +423,8 @@ func (r *run) candidate(parent *blk, class string, txs []*txr) *blk {
 	tn := []string{}
 	for i, t := range txs {
 		tn = append(tn, t.name)
-		if revs[i] != t.revert {
-			must(fmt.Errorf("tx %s: reverted=%v in the forge, planned %v", t.name, revs[i], t.revert))
+		if want := t.revertsOn(parent, txs[:i]); revs[i] != want {
+			must(fmt.Errorf("tx %s: reverted=%v in the forge, planned %v", t.name, revs[i], want))
 		}
 	}
 	// 3. deliver to the node under test
@@ -422,7 +516,7 @@ func (r *run) lookups(heads []*blk) {
 
 // phase offers a batch of candidates of every class on the given parents. other[i] is a block of the competing
 // branch used to find txs that are "only on the sibling branch".
-func (r *run) phase(parents []*blk, rounds int) {
+func (r *run) phase(parents []*blk, rounds int, far bool) {
 	fresh := func(num uint32, revert bool) *txr {
 		return r.newTx(num-uint32(r.rng.Intn(int(min(num, 3))+1)), 1000, nil, true, revert)
 	}
@@ -446,6 +540,18 @@ func (r *run) phase(parents []*blk, rounds int) {
 			}
 		}
 		pick := func(s []*txr) *txr {
+			if far {
+				// far above the early block refs: prefer the early txs, so that the lookups behind the verdict take the index path
+				var early []*txr
+				for _, t := range s {
+					if t.ref+100 <= p.num {
+						early = append(early, t)
+					}
+				}
+				if len(early) > 0 {
+					s = early
+				}
+			}
 			if len(s) == 0 {
 				return nil
 			}
@@ -453,7 +559,21 @@ func (r *run) phase(parents []*blk, rounds int) {
 		}
 		var txs []*txr
 		class := ""
-		switch c := r.rng.Intn(16); c {
+		var funded, unfunded []*txr // onFund txs on the chain of p, by how they fared there
+		for _, t := range onP {
+			if t.onFund {
+				if _, rev := onChain(p, t); rev {
+					unfunded = append(unfunded, t)
+				} else {
+					funded = append(funded, t)
+				}
+			}
+		}
+		c := r.rng.Intn(20)
+		if far && r.rng.Intn(100) < 60 {
+			c = []int{0, 1, 2, 3, 8, 10, 13, 17}[r.rng.Intn(8)] // the classes whose verdict depends on a lookup
+		}
+		switch c {
 		case 0, 1: // (i) a tx already on the parent chain
 			class = "dup-on-chain"
 			if t := pick(onP); t != nil {
@@ -531,6 +651,36 @@ func (r *run) phase(parents []*blk, rounds int) {
 			if t := pick(onP); t != nil {
 				txs = []*txr{fresh(num, false), fresh(num, true), t}
 			}
+		case 14: // the window at scale: ref + exp around and beyond 2^32 (the code adds in 64 bits), expiration = MaxUint32
+			class = "window-wide"
+			ref := num - uint32(r.rng.Intn(int(min(num-1, 3))+1)) // >= 1
+			exp := []uint32{math.MaxUint32 - ref - 1, math.MaxUint32 - ref, math.MaxUint32 - ref + 1,
+				math.MaxUint32 - ref + 1 + uint32(r.rng.Intn(int(ref))), math.MaxUint32}[r.rng.Intn(5)]
+			txs = []*txr{r.newTx(ref, exp, nil, true, false)}
+			if uint64(ref)+uint64(exp) >= 1<<32 {
+				r.st.WideWindows++
+			}
+		case 15: // block refs near the top of the range
+			class = "ref-huge"
+			txs = []*txr{r.newTx(math.MaxUint32-uint32(r.rng.Intn(3)), uint32(r.rng.Intn(20)), nil, true, false)}
+		case 16: // the state-dependent tx itself: succeeds after a fund tx on this chain, reverts elsewhere
+			class = "state-dependent"
+			txs = []*txr{r.newTxKind(num-1, 1000, nil, true, false, "onfund")}
+			if r.rng.Intn(3) == 0 {
+				txs = []*txr{r.newTxKind(num, 1000, nil, true, false, "fund"), txs[0]}
+			}
+		case 17: // a tx depending on a state-dependent tx that is on this chain: fine where it succeeded, refused where it reverted
+			if t := pick(append(append([]*txr{}, funded...), unfunded...)); t != nil {
+				class = "dep-on-state-dependent"
+				txs = []*txr{r.newTx(num, 1000, t, true, false)}
+			}
+		case 18: // the state-dependent tx of the OTHER branch (with the other outcome there), then a dependent in the same block
+			for _, t := range offP {
+				if t.onFund && uint64(num) <= uint64(t.ref)+uint64(t.exp) {
+					class = "state-dependent-reincluded"
+					txs = []*txr{t, r.newTx(num, 1000, t, true, false)}
+				}
+			}
 		default: // plain admissible blocks keep the pool of included txs growing
 			class = "admissible"
 			txs = []*txr{fresh(num, false), fresh(num, r.rng.Intn(2) == 0)}
@@ -541,6 +691,24 @@ func (r *run) phase(parents []*blk, rounds int) {
 		}
 		r.candidate(p, class, txs)
 	}
+}
+
+// restart drops every in-memory object of the node under test and rebuilds the stack over the same store (cold
+// repository caches, index read back from the key-value engine); what the new repository says about itself is logged.
+func (r *run) restart() {
+	r.node = r.net.Restart(0)
+	r.st.Restarts++
+	repo := r.node.Repo
+	heads, err := repo.ScanHeads(0)
+	must(err)
+	hn := []string{}
+	for _, h := range heads {
+		hn = append(hn, r.bname(h))
+	}
+	mx, err := repo.GetMaxBlockNum()
+	must(err)
+	r.emit(trace.Ev{"e": "Reopen", "best": r.bname(repo.BestBlockSummary().Header.ID()), "heads": hn, "maxnum": mx,
+		"g": r.bname(repo.GenesisBlock().Header().ID())})
 }
 
 func (r *run) selfTest(parent *blk) {
@@ -561,12 +729,12 @@ func (r *run) selfTest(parent *blk) {
 func oneRun(seed int64, mode string) *run {
 	rng := rand.New(rand.NewSource(seed))
 	nv := 2 + rng.Intn(2)
-	net := sim.NewNet(sim.Options{Validators: nv, Nodes: 1, ExtraAccts: 5, SkipLogs: true, EpochLength: 180,
+	net := sim.NewNet(sim.Options{Validators: nv, Nodes: 1, ExtraAccts: nOrigins + 1, SkipLogs: true, EpochLength: 180,
 		LaunchTime: sim.DefaultLaunch + uint64(seed%100_003)*10})
 	defer net.Close()
 	r := &run{rng: rng, net: net, node: net.Nodes[0], bids: trace.NewInterner("b"), tids: trace.NewInterner("t"),
 		pids: trace.NewInterner("p"), byID: map[thor.Bytes32]*blk{}}
-	r.st = runStat{Mode: mode, Seed: seed, Classes: map[string]int{}, Reasons: map[string]int{}}
+	r.st = runStat{Mode: mode, Seed: seed, Classes: map[string]int{}, Reasons: map[string]int{}, AdoptClasses: map[string]int{}}
 	g := &blk{id: net.B0.Header().ID()}
 	g.name = r.bids.Name(g.id[:])
 	r.byID[g.id] = g
@@ -590,15 +758,21 @@ func oneRun(seed int64, mode string) *run {
 		}
 		return r.filler(tip)
 	}
-	trunk = step(trunk, "seed-trunk", a, br)
+	// O is funded on the trunk only: the same state-dependent tx s succeeds on the trunk and reverts on the side branch
+	fnd := r.newTxKind(uint32(rng.Intn(int(f)+1)), 1000, nil, true, false, "fund")
+	sd := r.newTxKind(uint32(rng.Intn(int(f)+1)), 1000, nil, true, false, "onfund")
+	trunk = step(trunk, "seed-trunk", a, br, fnd)
 	c := r.newTx(f, 1000, a, true, false)
-	trunk = step(trunk, "seed-trunk", d, c)
+	trunk = step(trunk, "seed-trunk", d, c, sd)
 	side = r.filler(side)
-	side = step(side, "seed-side", br)
+	side = step(side, "seed-side", br, sd)
 	side = step(side, "seed-side", a)
 	r.lookups([]*blk{trunk, side, trunk.parent, side.parent})
-	r.phase([]*blk{trunk, side, trunk.parent, side.parent}, 14)
+	r.phase([]*blk{trunk, side, trunk.parent, side.parent}, 16, false)
 	r.lookups([]*blk{trunk, side})
+	r.restart()
+	r.lookups([]*blk{trunk, side, trunk.parent, side.parent})
+	r.phase([]*blk{trunk, side}, 4, false)
 	if mode == "long" {
 		// parents 98..103 above the early refs: the same txs are now judged through the other lookup path
 		for trunk.num < 97 {
@@ -606,7 +780,10 @@ func oneRun(seed int64, mode string) *run {
 			side = r.filler(side)
 		}
 		for trunk.num < 104 {
-			r.phase([]*blk{trunk, side}, 6)
+			r.phase([]*blk{trunk, side}, 8, true)
+			if trunk.num == 100 {
+				r.restart()
+			}
 			trunk = r.filler(trunk)
 			side = r.filler(side)
 		}
@@ -619,7 +796,7 @@ func oneRun(seed int64, mode string) *run {
 		for k := 0; k < 3; k++ {
 			trunk = r.filler(trunk)
 			side = r.filler(side)
-			r.phase([]*blk{trunk, side, trunk.parent}, 8)
+			r.phase([]*blk{trunk, side, trunk.parent}, 8, false)
 		}
 		r.lookups([]*blk{trunk, side, trunk.parent, side.parent})
 	}
